@@ -115,6 +115,7 @@ rej:
 	/* Sample intermediate vector y */
 	polyVecLUniformGamma1(&y, rhoPrime, nonce)
 	nonce++
+	verifSignAttempt()
 
 	/* Matrix-vector multiplication */
 	z = y
